@@ -406,11 +406,16 @@ def _excluded_by(dctx, ectx):
             return True
     # the else-branch of a condition that is a conjunction (`if let Some(x) = opt.filter(p) { A } else { B }`): B is excluded where
     # all the conjuncts hold, and the other way round
+    def terms(cond):
+        # the conjuncts of a condition: what `og._conjuncts` splits (filters, chains) and an explicit `a && b`
+        if isinstance(cond, tuple) and cond and cond[0] == "binop" and cond[1] == "And":
+            return terms(cond[2]) + terms(cond[3])
+        return list(og._conjuncts(cond))
     for first, second in ((dctx, ectx), (ectx, dctx)):
         have = {}
         for c in first:
             if c[0] == "alt" and c[2] is True:
-                for x in og._conjuncts(c[1]):
+                for x in terms(c[1]):
                     k_, v_ = og.decision(x[1], x[2])
                     have[k_] = v_
             elif c[0] == "alt":
@@ -418,7 +423,7 @@ def _excluded_by(dctx, ectx):
                 have[k_] = v_
         for c in second:
             if c[0] == "alt" and c[2] is False:
-                cj = og._conjuncts(c[1])
+                cj = terms(c[1])
                 if len(cj) > 1 and all(have.get(og.decision(x[1], x[2])[0]) == og.decision(x[1], x[2])[1] for x in cj):
                     return True
     dv = dict(x for x in (_variant_of(c) for c in dctx if c[0] == "alt") if x)
